@@ -78,6 +78,7 @@ type target struct {
 	Stores    map[string]act  // left-hand side text of an assignment -> recorded action (Keep [0]: the stored value)
 	LoopMarks map[int]act     // k-th loop in source order at any depth -> recorded action (the loop is not read)
 	LoopAny   bool            // with LoopBody N: N counts loops at any depth; no prologue (declarations only)
+	CanonIn   bool            // LoopAny step: the <name>_in parameters are called var_in_<i>, i = declaration order (a renamed local keeps its name and position)
 	// ext_io.go
 	IO          bool            // I/O-style functions: Rets, IOStores, defer, select, parallel assignment, ... (see ext_io.go)
 	Rets        map[string]hint // call text or callee text -> {base name, "t0,t1,..."}: results of a call that are not one scalar
